@@ -205,7 +205,10 @@ def classify(obs, declared_outputs=(), module_tokens=None):
     def planted_module(name):
         if not isinstance(name, str):
             return False
-        return name in mtok or name.split(".")[0] in mtok
+        if name in mtok or name.split(".")[0] in mtok:
+            return True
+        # a canary name anywhere in a dotted path (e.g. encodings.vp_canary_0 from a codec lookup)
+        return any(c.startswith("vp_canary") and c in mtok for c in name.split("."))
 
     for name, s in obs["events"]:
         if name.startswith(ALWAYS_EVENTS):
@@ -236,7 +239,7 @@ def classify(obs, declared_outputs=(), module_tokens=None):
         if planted_module(n):
             out.append(("effect:sys.modules", f"module {n!r} named by the input appeared in sys.modules"))
     for n in obs["finder"]:
-        if n.startswith("vp_canary") or planted_module(n):
+        if n.startswith("vp_canary") or ".vp_canary" in n or planted_module(n):
             out.append(("effect:find_spec", f"import machinery was asked for {n!r}, a module named by the input"))
     if obs["sink"]:
         out.append(("effect:sink-call", f"sink callable ran: {obs['sink'][:2]!r}"[:300]))
